@@ -43,7 +43,9 @@ Definition sc_force_compaction_child : list op :=
 Definition sc_partial_compaction_cached : list op :=
   round false (PAppend true 1 0) true ++ round false (PAppend true 1 0) true ++
   round false (PCompactPartial 1) true ++
-  [OpSnapFresh; OpIterStart 0 IKHeap; OpIterStart 0 IKSingleSkipLL; OpIterSeek 1 SKLower; OpCloseH 0;
+  [OpSnapFresh; OpIterStart 0 IKHeap; OpIterStart 0 IKSingleSkipLL; OpIterSeek 1 SKLower;
+   OpIterSeek 2 SKLLDone;   (* a seek far ahead, past every key: the old lower-level iterator is alive, the new one done at once *)
+   OpCloseH 0;
    OpIterSeek 1 SKLower; OpCloseH 0; OpCloseH 0] ++ closing2.
 
 (* 4: the child collection dropped and re-created while the persister is held at
